@@ -1035,6 +1035,9 @@ class _ILoc:
             return df._cols[list(df._cols)[cols]][rows]
         if isinstance(rows, (range, list)):
             r = list(rows)
+            adj = getattr(df, "_adj_ties", None)
+            if adj and r == list(range(len(r))) and 0 < len(r) < df._n and adj[len(r) - 1]:
+                raise OutsideClaim("row limit cuts through rows tied in the sort order")
         elif isinstance(rows, slice):
             r = list(range(df._n))[rows]
         else:
@@ -1270,6 +1273,9 @@ class DataFrame:
         r = self._take(order)
         r._n = self._n
         r._ties = flags["ties"] or getattr(self, "_ties", False)
+        # rows tied with their successor in the sorted order (decisions are cached: no new forks); a later row limit that cuts
+        # between tied rows is not determined by the order (C18: "exactly the first `limit` rows of that order")
+        r._adj_ties = [_cmp_rows(cols, order[p], cols, order[p + 1], asc) == 0 for p in range(len(order) - 1)] if flags["ties"] else None
         r._nullkey = False
         if ignore_index:
             r.index = list(range(r._n))
